@@ -65,6 +65,8 @@ def install(lib):
                 return ex.call_closure(Closure(m[1], [], m[0], self_obj=x, cls=x.cls), [], {})
         if isinstance(x, _Concat):
             return len(x.head) + x.seq.length()
+        if isinstance(x, Shape):
+            return len(x.dims)
         raise Unsupported(f"len of {type(x).__name__}")
 
     def b_float(ex, x=0.0):
